@@ -215,10 +215,33 @@ def app_name(case):
     return dict(dm['table']).get(dm['host']) if dm else None
 
 
+def rewrites(case):
+    """(path, method) the before_request hooks that run leave in the environ, None where untouched"""
+    path = method = None
+    for h in case['before']:
+        for m in h['muts']:
+            if m.get('m') == 'env':
+                if m['key'] == 'PATH_INFO':
+                    path = m['v']
+                else:
+                    method = m['v']
+        if c3.fails(h):
+            break
+    return path, method
+
+
 def effective_path(case):
-    """PATH_INFO after wsgi() prefixed the application name"""
+    """PATH_INFO as routing sees it: after wsgi() prefixed the application name and after the before hooks"""
+    p, _ = rewrites(case)
+    if p is not None:
+        return p
     n = app_name(case)
     return case['req']['path'] if not n else '/' + n + case['req']['path']
+
+
+def effective_verb(case):
+    _, m = rewrites(case)
+    return m if m is not None else case['req']['verb']
 
 
 def url_repr(case):
@@ -330,7 +353,7 @@ def oracle(case, obs):
         if rl.better(rl.flat_pattern(h[0][0], h[0][1]), rl.flat_pattern(best[0][0], best[0][1])):
             best = h
     (pattern, fobjs, names, table), vals = best
-    verb = case['req']['verb'].upper()
+    verb = effective_verb(case).upper()
     cands = [verb] + (['GET'] if verb == 'HEAD' else []) + ['ANY']
     target = next((table[c] for c in cands if c in table), None)
     if any(c3.fails(spec_of(case['hooks'], c['h'])['p']) for c in case['cmds']
@@ -352,7 +375,7 @@ def oracle(case, obs):
         return 'matched rule %r: handler called %d times' % (pattern, len(called))
     h, hnames = target
     spec = spec_of(case['handlers'], h)
-    if spec['k'] == 'echo' and not start[3] and code == 200 and case['req']['verb'] != 'HEAD':
+    if spec['k'] == 'echo' and not start[3] and code == 200 and effective_verb(case) != 'HEAD':
         want_kw = [(n, v) for n, v in zip(hnames, vals) if not n.startswith('anon-')]
         want = ('kw:' + render_kw(want_kw)).encode('utf8')
         body = [e for e in ev if e[0] == 'body']
@@ -434,11 +457,23 @@ def g_case(rng):
     for c_ in cmds:
         if c_['op'] == 'add_hook' and c_.get('partial') and rng.random() < 0.5:
             c_['via'] = 'error'
+    before = [c3.g_hook(c) for _ in range(rng.choice([0, 0, 0, 1, 2]))]
+    if rng.random() < 0.12:
+        # the request arrives under a prefix / with another verb; a before_request hook rewrites it
+        muts = []
+        if rng.random() < 0.8:
+            muts.append(dict(m='env', key='PATH_INFO', v=path))
+            path = rng.choice(['/v1', '/en-GB', '/x/y']) + path
+        if rng.random() < 0.4:
+            muts.append(dict(m='env', key='REQUEST_METHOD', v=verb))
+            verb = rng.choice([v for v in rl.VERBS if v != verb.upper()])
+        before.insert(rng.randrange(0, len(before) + 1),
+                      dict(muts=muts, res=dict(k='ret', o=dict(k='falsy', v='none'))))
     eh = []
     if rng.random() < 0.1:
         eh.append([rng.choice([404, 405, 500]), dict(k=rng.choice(['body', 'raise']))])
     return dict(kind='app', cmds=cmds, handlers=handlers, hooks=hooks,
-                before=[c3.g_hook(c) for _ in range(rng.choice([0, 0, 0, 1, 2]))],
+                before=before,
                 after=[c3.g_hook(c) for _ in range(rng.choice([0, 0, 0, 1, 2]))],
                 eh=eh, dm=dm, req=dict(path=path, verb=verb, fw=rng.random() < 0.2, json=rng.random() < 0.25))
 
@@ -494,6 +529,16 @@ def corpus():
     cs.append(simple(two, '/nope', dm=dict(table=[['a.example', 'u']], host='a.example', fwd=False, header='', via='ctor'),
                      req=dict(path='/nope', verb='GET', fw=False, json=True)))
     cs.append(simple([add('/h/<x>/z', ['GET'], 1), dict(hk('/h', 2, True), via='error')], '/h/q/nope'))
+    # before_request hooks that rewrite the request: prefix stripping, method override (and a failing hook in front)
+    strip = dict(muts=[dict(m='env', key='PATH_INFO', v='/u/bob')], res=dict(k='ret', o=dict(k='falsy', v='none')))
+    verb_ = dict(muts=[dict(m='env', key='REQUEST_METHOD', v='GET')], res=dict(k='ret', o=dict(k='falsy', v='none')))
+    cs.append(simple(two, '/v1/u/bob', before=[strip]))
+    cs.append(simple(two, '/v1/u/bob', 'DELETE', before=[c3.OK_HOOK, strip, verb_]))
+    cs.append(simple(two, '/u/bob', 'POST', before=[verb_]))
+    cs.append(simple(two, '/u/bob', 'HEAD', before=[verb_]))                   # HEAD rewritten to GET: body is sent
+    cs.append(simple(two, '/u/bob', 'GET', before=[dict(verb_, muts=[dict(m='env', key='REQUEST_METHOD', v='HEAD')])]))
+    cs.append(simple(two, '/v1/u/bob', before=[c3.BAD_HOOK, strip]))             # the rewriting hook never runs
+    cs.append(simple(two, '/7/edit', 'GET', before=[dict(strip, muts=[dict(m='env', key='PATH_INFO', v='/u/7/edit')])]))
     return cs
 
 
